@@ -11,6 +11,7 @@ import (
 	"fmt"
 	"os"
 	"path/filepath"
+	"strings"
 
 	"github.com/WICG/webpackage/go/internal/cbor"
 	"github.com/WICG/webpackage/go/zz_verif/mon"
@@ -267,6 +268,33 @@ func run(r *mon.Run) {
 				}
 			}
 		}
+	}
+
+	// two-entry maps over every ordered pair of a key pool that spans all key types - including array- and map-typed
+	// keys, where a shorter encoding does not imply "sorts first" - plus the same pair as the tail of a three-entry map
+	if r.Shard == 0 {
+		pool := [][]byte{
+			rcbor.Uint(0), rcbor.Uint(23), rcbor.Uint(24), rcbor.Uint(255), rcbor.Uint(256), rcbor.Uint(65536), rcbor.Uint(1 << 32),
+			rcbor.Int(-1), rcbor.Int(-24), rcbor.Int(-25), rcbor.Int(-257),
+			rcbor.Bytes(nil), rcbor.Bytes([]byte{0}), rcbor.Bytes([]byte{0xff}), rcbor.Bytes([]byte{0, 0}), rcbor.Bytes(bytes.Repeat([]byte{1}, 24)),
+			rcbor.Text(""), rcbor.Text("a"), rcbor.Text("b"), rcbor.Text("aa"), rcbor.Text(strings.Repeat("a", 24)),
+			rcbor.Cat(rcbor.ArrayHead(0)), rcbor.Cat(rcbor.ArrayHead(1), rcbor.Uint(0)), rcbor.Cat(rcbor.ArrayHead(1), rcbor.Uint(256)), rcbor.Cat(rcbor.ArrayHead(2), rcbor.Uint(0), rcbor.Uint(0)),
+			rcbor.Cat(rcbor.ArrayHead(1), rcbor.Text("zz")), rcbor.Cat(rcbor.ArrayHead(2), rcbor.Uint(0), rcbor.Text("a")), rcbor.Cat(rcbor.ArrayHead(1), rcbor.Cat(rcbor.ArrayHead(1), rcbor.Uint(65536))),
+			rcbor.Cat(rcbor.MapHead(0)), rcbor.Cat(rcbor.MapHead(1), rcbor.Uint(0), rcbor.Uint(0)), rcbor.Cat(rcbor.MapHead(1), rcbor.Uint(256), rcbor.Uint(0)), rcbor.Cat(rcbor.MapHead(2), rcbor.Uint(0), rcbor.Uint(0), rcbor.Uint(1), rcbor.Uint(0)),
+			rcbor.Cat(rcbor.MapHead(1), rcbor.Text("k"), rcbor.Cat(rcbor.ArrayHead(1), rcbor.Uint(1<<32))),
+			{0xf4}, {0xf5}, {0xf6},
+		}
+		for _, a := range pool {
+			for _, b := range pool {
+				x := rcbor.Cat(rcbor.MapHead(2), a, rcbor.Uint(0), b, rcbor.Uint(0))
+				check(r, x, "key-pair", 499)
+				x3 := rcbor.Cat(rcbor.MapHead(3), rcbor.Uint(0), rcbor.Uint(9), a, rcbor.Uint(0), b, rcbor.Uint(0))
+				check(r, x3, "key-pair-tail", 499)
+				// and as a nested map inside an array
+				check(r, rcbor.Cat(rcbor.ArrayHead(2), rcbor.Uint(1), x), "key-pair-nested", 499)
+			}
+		}
+		r.Distinct("key-pairs")
 	}
 
 	// generated nested items and their single corruptions
